@@ -351,6 +351,7 @@ def queries(rnd, e, top_dx=None):
 
 class H(Harness):
     ID = 'C16'
+    ANCHOR_FILES = ['epydemic/gf/gf.py', 'epydemic/gf/function_gf.py', 'epydemic/gf/discrete_gf.py', 'epydemic/gf/sum_gf.py', 'epydemic/gf/product_gf.py', 'epydemic/gf/interface.py']
     TIE_IMPORT = 'From EpyV Require Import Model.GF Tie.C16.'
     CHECK_FN = 'EpyV.Tie.C16.check_case'
     QUICK_N = 600
